@@ -167,6 +167,7 @@ struct Tester
     Violation want;
     bool crash_mode; // candidates are executed in a forked child (crash classes)
     uint64_t execs = 0;
+    uint64_t steps_used = 0; // simulator steps spent by candidates (a deterministic cost measure)
     std::string planfile = std::string(); // isolate mode: every candidate is written before it runs
     const ReplayFile* meta = nullptr;
 
@@ -238,6 +239,7 @@ struct Tester
         {
             alarm(60);
             Outcome o = e.execute(p, cfg);
+            steps_used += o.steps;
             return o.violated ? o.v : Violation();
         }
         char tmpl[] = "/dev/shm/simchild.XXXXXX";
@@ -301,7 +303,9 @@ struct Tester
 // ddmin over the operation list, then per-op simplification, then the choice list.
 static Plan minimise(Engine& e, const Config& cfg, Plan plan, Tester& t, uint64_t budget = 4000)
 {
-    auto over = [&] { return t.execs > budget; };
+    // bounded by executions and by simulator steps (big threaded plans are expensive per execution);
+    // both are deterministic measures, so the minimised plan does not depend on machine load
+    auto over = [&] { return t.execs > budget || t.steps_used > 4000000; };
     // 1. ddmin on ops
     size_t n = 2;
     while (plan.ops.size() >= 2 && !over())
